@@ -188,6 +188,7 @@ func runGate(c *core.Ctx, slot int, stream string, idx int, sc gateScn) {
 		c.Inconclusive("gate scenario: "+err.Error(), stream, idx, sc.name)
 		return
 	}
+	s.stream, s.idx = stream, idx
 	defer s.close()
 	h := getHub()
 	detail := func(extra map[string]interface{}) map[string]interface{} {
